@@ -18,6 +18,13 @@ def run(tier, seed, args):
     X = progs.xyz("single")
     srcs.append(progs.prog("fullrange", [progs.new(), progs.pc(X + [progs.rec("intensity", "int", progs.I64MIN, progs.I64MAX), progs.rec("rowIndex", "int", 4, 4)], 40, seed=seed), progs.FIN]))
     srcs.append(progs.prog("ext_records", [progs.new(), {"op": "ext", "ns": "ext", "url": "urn:x"}, progs.pc(X + [progs.rec("intensity", "int", 0, 9, ns="ext"), progs.rec("foo", "double", ns="ext")], 10, seed=seed), progs.FIN]))
+    # two point clouds: the size of the first sweeps the start of the second (in the copy as well) over the page payload
+    p0 = progs.small_protos()[0]
+    for n1 in (range(1, 260) if tier == "thorough" else range(1, 131)):
+        srcs.append(progs.prog(f"twopc{n1}", [progs.new(), progs.pc(p0, n1, seed=seed + n1, guid="a"), progs.pc(progs.small_protos()[1], 10, seed=seed, guid="b"), progs.FIN]))
+    # half-defaulted integer ranges (a foreign file that omits only one of minimum/maximum is read like this)
+    for i, (mn, mx) in enumerate(((0, progs.I64MAX), (progs.I64MIN, 5), (progs.I64MIN + 1, progs.I64MAX), (-1, progs.I64MAX))):
+        srcs.append(progs.prog(f"halfdefault{i}", [progs.new(), progs.pc(X + [progs.rec("intensity", "int", mn, mx)], 30, seed=seed + i), progs.FIN]))
     if tier == "thorough":
         srcs += progs.c12_programs(seed, "quick")
     # files of the independent encoder (C03) when available
